@@ -263,12 +263,14 @@ func specUncompress(b []byte) ([]byte, bool) {
 type specColumn struct {
 	v1Pages, v2Pages, dictPages int
 	rep, def                    []int32
-	ints     []int64  // INT32 / INT64 values
-	strs     [][]byte // BYTE_ARRAY values
+	ints                        []int64  // INT32 / INT64 values
+	strs                        [][]byte // BYTE_ARRAY values
 }
 
 type specPage struct {
-	rep, def []int32 // levels of this page
+	ints     []int64  // non-null values of this page (INT32/INT64)
+	strs     [][]byte // non-null values of this page (BYTE_ARRAY)
+	rep, def []int32  // levels of this page
 	hdrLen   int64
 	offset   int64 // of the page header in the file
 	size     int64 // header + compressed body
@@ -450,9 +452,11 @@ func specReadChunk(file []byte, meta *specVal, maxRep, maxDef int) (col *specCol
 				vAssert(okl, "definition levels decode")
 				b = b[4+l:]
 			}
+			ni, ns := len(col.ints), len(col.strs)
 			if !specPageValues(col, &dict, physical, enc, b, nv, maxRep, maxDef, rep, def) {
 				return col, pages, false
 			}
+			pg.ints, pg.strs = col.ints[ni:], col.strs[ns:]
 			pg.numRows = specCountRows(rep, nv, maxRep)
 			pg.rep, pg.def = rep, def
 			if maxRep > 0 && len(rep) > 0 {
@@ -514,9 +518,11 @@ func specReadChunk(file []byte, meta *specVal, maxRep, maxDef int) (col *specCol
 				}
 				vAssert(int64(rl+dl+len(values)) == usize, "uncompressed_page_size counts the levels and the uncompressed values")
 			}
+			ni, ns := len(col.ints), len(col.strs)
 			if !specPageValues(col, &dict, physical, enc, values, nv, maxRep, maxDef, rep, def) {
 				return col, pages, false
 			}
+			pg.ints, pg.strs = col.ints[ni:], col.strs[ns:]
 			pg.numRows = specCountRows(rep, nv, maxRep)
 			pg.rep, pg.def = rep, def
 			vAssert(pg.numRows == nr, "num_rows counts the rows that start in the page")
@@ -671,6 +677,10 @@ func specOpen(file []byte) (*specFile, bool) {
 
 // specCheckIndexes compares the page index of one column chunk with the pages found by walking it.
 func specCheckIndexes(file []byte, chunk *specVal, pages []specPage, col *specColumn, leaf specLeaf, chunkRows int64) {
+	physical := int64(0)
+	if meta := chunk.field(3); meta != nil {
+		physical, _ = meta.int(1)
+	}
 	var data []specPage
 	for _, p := range pages {
 		if !p.isDict {
@@ -707,6 +717,18 @@ func specCheckIndexes(file []byte, chunk *specVal, pages []specPage, col *specCo
 		ci := r.value(12, 0)
 		vAssert(!r.bad && int64(r.pos) == ln, "column index is one thrift struct of the announced length")
 		vAssert(len(ci.items(1)) == len(data) && len(ci.items(2)) == len(data) && len(ci.items(3)) == len(data), "one column index entry per data page")
+		// min_values / max_values (fields 2, 3) bound the values of their page; null_pages (1) flags pages without values
+		nullPages, mins, maxs := ci.items(1), ci.items(2), ci.items(3)
+		for i := range data {
+			if i >= len(nullPages) || i >= len(mins) || i >= len(maxs) {
+				break
+			}
+			empty := len(data[i].ints) == 0 && len(data[i].strs) == 0
+			vAssert((nullPages[i].i == 1) == empty, "null_pages flags exactly the pages without non-null values")
+			if !empty {
+				specCheckBounds(mins[i].b, maxs[i].b, data[i].ints, data[i].strs, physical, "column index page")
+			}
+		}
 		// per-page level histograms (fields 6 and 7): pages concatenated, one bucket per level
 		specCheckPageHistograms(ci.items(6), data, leaf.maxRep, true)
 		specCheckPageHistograms(ci.items(7), data, leaf.maxDef, false)
@@ -752,6 +774,48 @@ func specCheckPageHistograms(hist []*specVal, pages []specPage, max int, repetit
 				}
 			}
 			vAssert(hist[p*(max+1)+l].i == n, "a page level histogram counts the levels of its page")
+		}
+	}
+}
+
+// specOrderedKey turns a PLAIN-encoded statistics value into something comparable:
+// signed integers for INT32/INT64, the bytes themselves (unsigned lexicographic) for BYTE_ARRAY.
+func specLessEqBytes(a, b []byte) bool {
+	for i := 0; i < len(a) && i < len(b); i++ {
+		if a[i] != b[i] {
+			return a[i] < b[i]
+		}
+	}
+	return len(a) <= len(b)
+}
+
+// specSkipBounds: the harness that keeps the real CRC-32 (with 64-bit symbolic
+// values) leaves the bounds to the other harnesses: order comparisons under a
+// path condition full of CRC terms come back unknown.
+var specSkipBounds bool
+
+// specCheckBounds: min <= v <= max for every value, in the column's sort order.
+func specCheckBounds(min, max []byte, ints []int64, strs [][]byte, physical int64, what string) {
+	if specSkipBounds {
+		return
+	}
+	switch physical {
+	case 1, 2:
+		w := 4
+		if physical == 2 {
+			w = 8
+		}
+		if len(min) != w || len(max) != w {
+			vAssert(false, what+" bounds have the width of the type")
+			return
+		}
+		lo, hi := specLE(min, w), specLE(max, w)
+		for _, v := range ints {
+			vAssert(lo <= v && v <= hi, what+" bounds contain every value")
+		}
+	case 6:
+		for _, v := range strs {
+			vAssert(specLessEqBytes(min, v) && specLessEqBytes(v, max), what+" bounds contain every value")
 		}
 	}
 }
@@ -822,6 +886,10 @@ func specDecodeFile(file []byte, wantRows int64) ([]*specColumn, bool) {
 					}
 					vAssert(nc == nulls, "chunk statistics null_count counts the nulls")
 				}
+				if mn, mx := st.field(6), st.field(5); mn != nil && mx != nil && (len(col.ints) > 0 || len(col.strs) > 0) {
+					physical, _ := meta.int(1)
+					specCheckBounds(mn.b, mx.b, col.ints, col.strs, physical, "chunk statistics")
+				}
 			}
 			if ss := meta.field(16); ss != nil {
 				specCheckHistogram(ss.items(3), col.def, f.leaves[ci].maxDef, "definition")
@@ -859,6 +927,7 @@ type verifRecG struct {
 
 func VerifH_C02_specReaderAgrees() {
 	vUnwind(1 << 16)
+	specSkipBounds = true
 	n := vChoose("rows", 1, 2+vTier())
 	sym := vChoose("symbolicColumn", 0, 3)
 	rows := make([]verifRecG, n)
